@@ -543,4 +543,92 @@ theorem run_overflow_local (E : Env) (hp : E.cfg.prot = false) : ∀ (k : Nat) (
   | 0, _, h => h
   | k + 1, s, h => run_overflow_local E hp k (step E s) (step_overflow_local E s hp h)
 
+
+/-! ### host operations establish the invariant -/
+
+/-- between host operations: nothing on the native stack, no current thread -/
+structure Quiescent (d : Nat) (s : St) : Prop where
+  stack : s.stack = []
+  cur : s.cur = none
+  depth : s.depth = d
+  ub : s.ub = false
+
+theorem startCall_inv (E : Env) (s0 : St) (label : Nat) (hc : s0.cur = none) :
+    Inv s0.depth (startCall E s0 label) := by
+  unfold startCall
+  apply enterSei_inv
+  exact ⟨by simp [vmCount], by simp [finalNone, hc]⟩
+
+theorem startExecute_inv (E : Env) (s0 : St) (hc : s0.cur = none) :
+    Inv s0.depth (startExecute E s0) := by
+  unfold startExecute execRunningCall
+  simp only
+  split
+  · exact ⟨by simp [vmCount, tick], by simp [finalNone, tick, hc]⟩
+  · split
+    · exact ⟨by simp [vmCount, tick], by simp [finalNone]⟩
+    · exact ⟨by simp [vmCount, tick], by simp [finalNone, tick, hc]⟩
+
+theorem inv_halted {d : Nat} {s : St} (h : Inv d s) (hs : s.stack = []) : s.depth = d ∧ s.cur = none := by
+  have h1 := h.depth; have h2 := h.cur
+  rw [hs] at h1 h2
+  exact ⟨by simpa [vmCount] using h1, by simpa [finalNone] using h2⟩
+
+theorem enterSei_exc_none (E : Env) (s : St) (t : Tid) (h : s.exc = none) :
+    (enterSei E s t).exc = none ∨ (enterSei E s t).exc = some .depth := by
+  rcases enterSei_exc E s t none h s.depth rfl with h | ⟨h, _⟩
+  · exact Or.inl h
+  · exact Or.inr h
+
+theorem startCall_exc (E : Env) (s0 : St) (label : Nat) :
+    (startCall E s0 label).exc = none ∨ (startCall E s0 label).exc = some .depth := by
+  unfold startCall
+  apply enterSei_exc_none
+  rfl
+
+/-! ### the transition function does not read the stream flags -/
+
+/-- two environments that differ only in which streams are attached / the developer flag -/
+structure SameCore (E E' : Env) : Prop where
+  prog : E.prog = E'.prog
+  inc : E.inc = E'.inc
+  prot : E.cfg.prot = E'.cfg.prot
+  maxExec : E.cfg.maxExec = E'.cfg.maxExec
+  maxDepth : E.cfg.maxDepth = E'.cfg.maxDepth
+
+theorem tick_same {E E' : Env} (h : SameCore E E') (s : St) : tick E s = tick E' s := by simp [tick, h.inc]
+
+theorem enterVM_same {E E' : Env} (h : SameCore E E') (s : St) (t : Tid) : enterVM E s t = enterVM E' s t := by
+  simp [enterVM, tick, h.inc, h.maxExec, h.maxDepth]
+
+theorem enterSei_same {E E' : Env} (h : SameCore E E') (s : St) (t : Tid) : enterSei E s t = enterSei E' s t := by
+  simp [enterSei, enterVM_same h]
+
+theorem vmExtend_same {E E' : Env} (h : SameCore E E') (s : St) (t : Tid) (r : List Frame) :
+    vmExtend E s t r = vmExtend E' s t r := by
+  simp [vmExtend, tick, h.inc, h.maxExec]
+
+theorem unwindFrame_same {E E' : Env} (h : SameCore E E') (s : St) (e : Exc) (f : Frame) (r : List Frame) :
+    unwindFrame E s e f r = unwindFrame E' s e f r := by
+  cases f <;> cases e <;> simp [unwindFrame, h.prot, vmExtend_same h, tick_same h]
+
+theorem execOp_same {E E' : Env} (h : SameCore E E') (s : St) (t : Tid) (th : Thr) (dl ct n : Nat) (r : List Frame) (op : Op) :
+    execOp E s t th dl ct n r op = execOp E' s t th dl ct n r op := by
+  cases op <;> simp [execOp, h.prog, enterSei_same h]
+
+theorem runFrame_same {E E' : Env} (h : SameCore E E') (s : St) (f : Frame) (r : List Frame) :
+    runFrame E s f r = runFrame E' s f r := by
+  cases f <;> simp [runFrame, h.prog, execOp_same h, enterSei_same h, enterVM_same h, tick_same h]
+
+theorem step_same {E E' : Env} (h : SameCore E E') (s : St) : step E s = step E' s := by
+  simp [step, unwindFrame_same h, runFrame_same h]
+
+theorem run_same {E E' : Env} (h : SameCore E E') : ∀ (k : Nat) (s : St), run E k s = run E' k s
+  | 0, _ => rfl
+  | k + 1, s => by simp [run, step_same h, run_same h k]
+
+theorem runD_fst (E : Env) : ∀ (k : Nat) (x : St × List Diag), (runD E k x).1 = run E k x.1
+  | 0, _ => rfl
+  | k + 1, x => by simp [runD, run, stepD, runD_fst E k]
+
 end Morfuse.Unwind
